@@ -160,7 +160,7 @@ def tlc_errors(out):
     return "\n".join(keep[:60] + ["..."] + tail)
 
 
-def validate_trace(trace, module="TraceCore.tla", cfg="TraceCore.cfg", timeout=3000, heap="6g"):
+def validate_trace(trace, module="TraceCore.tla", cfg="TraceCore.cfg", timeout=900, heap="6g"):
     """returns verdict dict {bad:[...], scenarios:n, events:n}; raises Infra on TLC failure"""
     rc, out = run_tlc(module, cfg, env_extra={"TRACE": os.path.abspath(trace)}, workers=1, timeout=timeout, heap=heap)
     m = re.search(r'<<"VERDICT", "(.*)">>', out)
